@@ -46,8 +46,8 @@ pub fn raw_case(r: &mut Rep, x: u64, k: u32) {
                 }
             }
         }
-        if p.is_aligned(al) != (x % al == 0) {
-            r.viol("C06|PhysAddr::is_aligned|wrong", &case, "");
+        if catch(|| p.is_aligned(al)) != Ok(x % al == 0) {
+            r.viol("C06|PhysAddr::is_aligned|wrong-or-panics", &case, "");
         }
     }
     // virtual, alignments up to 2^47
@@ -70,8 +70,8 @@ pub fn raw_case(r: &mut Rep, x: u64, k: u32) {
             (Err(()), None) => {}
             (o, e) => r.viol("C06|VirtAddr::align_up|wrong", &case, &format!("{:x?} expected {:x?}", o, e)),
         }
-        if v.is_aligned(al) != (x % al == 0) {
-            r.viol("C06|VirtAddr::is_aligned|wrong", &case, "");
+        if catch(|| v.is_aligned(al)) != Ok(x % al == 0) {
+            r.viol("C06|VirtAddr::is_aligned|wrong-or-panics", &case, "");
         }
     }
 }
@@ -186,7 +186,7 @@ pub fn run(a: &Args) {
             continue;
         }
         for x in addr_set(k) {
-            raw_case(&mut r, x, k);
+            guarded(&mut r, "C06|align/is_aligned|unexpected-panic", || format!("raw {:#x} {}", x, k), |r| raw_case(r, x, k));
         }
     }
     // non powers of two
@@ -212,9 +212,9 @@ pub fn run(a: &Args) {
         all.sort_unstable();
         all.dedup();
         for x in all {
-            contain_case::<Size4KiB>(&mut r, x);
-            contain_case::<Size2MiB>(&mut r, x);
-            contain_case::<Size1GiB>(&mut r, x);
+            guarded(&mut r, "C06|containing_address/from_start_address<4KiB>|unexpected-panic", || format!("contain 4KiB {:#x}", x), |r| contain_case::<Size4KiB>(r, x));
+            guarded(&mut r, "C06|containing_address/from_start_address<2MiB>|unexpected-panic", || format!("contain 2MiB {:#x}", x), |r| contain_case::<Size2MiB>(r, x));
+            guarded(&mut r, "C06|containing_address/from_start_address<1GiB>|unexpected-panic", || format!("contain 1GiB {:#x}", x), |r| contain_case::<Size1GiB>(r, x));
         }
     }
     r.sample("raw 0x7fffffffffff 21  (VirtAddr::align_up crosses the gap)".into());
